@@ -4,10 +4,10 @@
    cexp(i arg)) is NOT modelled; only this specification is, and the C routines are compared
    with it numerically by checks/C19.py.
 
-   [ls_solve] is a certifying computation: it inverts N = A^H A by Gauss-Jordan elimination
-   (exact over the Gaussian rationals), forms X = G (A^H B) and then *checks* G N = I and
-   N X = A^H B entry by entry; it answers None when the elimination meets a zero column (rank
-   deficient A) or a check fails.  Executable definitions only; the theorems are in LsProofs.v. *)
+   [ls_solve] is a certifying computation: it solves N X = A^H B with N = A^H A by Gauss-Jordan
+   elimination (exact over the Gaussian rationals) and then *checks* N X = A^H B entry by entry;
+   it answers None when the elimination meets a column without a nonzero pivot (rank deficient
+   A) or the check fails.  Executable definitions only; the theorems are in LsProofs.v. *)
 Require Import List Arith Bool.
 Import ListNotations.
 Require Import LV.Base.CField LV.Lin.MatL.
@@ -44,9 +44,10 @@ Definition gj_step (n : nat) (st : option (list (list K))) (col : nat) : option 
     end
   end.
 
-Definition gj_inverse (n : nat) (a : mat) : option mat :=
-  let aug := map (fun i => firstn n (mrow K a i ++ repeat 0 n)
-                           ++ map (fun j => if Nat.eqb i j then 1 else 0) (seq 0 n)) (seq 0 n) in
+(* solve N X = C (N is n x n, C is n x o) on the augmented rows [N | C] *)
+Definition gj_solve (n o : nat) (N c : mat) : option mat :=
+  let aug := map (fun i => firstn n (mrow K N i ++ repeat 0 n) ++ firstn o (mrow K c i ++ repeat 0 o))
+                 (seq 0 n) in
   match fold_left (gj_step n) (seq 0 n) (Some aug) with
   | None => None
   | Some rows => Some (map (fun r => skipn n r) rows)
@@ -58,12 +59,9 @@ Definition mat_eqb (r c : nat) (a b : mat) : bool :=
 Definition ls_solve (m n o : nat) (a b : mat) : option mat :=
   let N := normal_mat m n a in
   let c := normal_rhs m n o a b in
-  match gj_inverse n N with
+  match gj_solve n o N c with
   | None => None
-  | Some G =>
-    let x := mmul K n n o G c in
-    if andb (mat_eqb n n (mmul K n n n G N) (mident K n)) (mat_eqb n o (mmul K n n o N x) c)
-    then Some x else None
+  | Some x => if mat_eqb n o (mmul K n n o N x) c then Some x else None
   end.
 
 (* the residual A x - b and its squared 2-norm (as a field element: sum of z * conj z) *)
